@@ -405,6 +405,13 @@ impl Sim for World {
                 g(&mut st);
             }
         }
+        // the input loop must not grow the stack with the amount of input (the real main
+        // thread has 8 MiB)
+        if st.stack_base != 0 && st.stack_base.saturating_sub(stack_addr()) > st.stack_limit {
+            st.ev("abort StackExhausted (in the input path)");
+            drop(st);
+            std::panic::panic_any(Abort::StackExhausted);
+        }
         match st.input.pop_front() {
             Some(Chunk::Bytes(mut b)) => {
                 if b.len() > buf.len() {
